@@ -3,7 +3,7 @@
 // (every problem, basis and array freed, QSexactClear()), then LeakSanitizer is asked
 // whether anything allocated by this case is still around (GMP limbs included: the
 // build routes GMP through malloc).
-#include "qsx.hpp"
+#include "qsx_io.hpp"
 
 namespace qsx {
 
@@ -43,6 +43,50 @@ static void c18_run_bad(const Case &c, Result &r) {
   r.sample = inner.sample;
 }
 
+// parse-error paths: a valid file cut or poisoned at a token boundary chosen by the tape, read with and
+// without an error collector (LP / MPS / basis), everything released afterwards
+static void c18_gen_file(Tape &t, Case &c) {
+  Model m;
+  bool mps = t.coin();
+  gen_file_model(t, m, mps, true, 4, 4, (int)t.below(2));
+  EmitStats st;
+  std::string text = mps ? emit_mps(t, m, st) : emit_lp(t, m, st);
+  // token boundaries
+  std::vector<size_t> cuts;
+  for (size_t k = 1; k < text.size(); k++) if (isspace((unsigned char)text[k - 1]) && !isspace((unsigned char)text[k])) cuts.push_back(k);
+  size_t at = cuts.empty() ? 0 : cuts[t.below((uint32_t)cuts.size())];
+  static const char *poison[] = {"", "@@@ ", "1/0 ", "<= >= ", "\nEND\n", "\nROWS\n", ": : ", "9999999999999999999999e5 ", "free inf ", "\n\n"};
+  int kind = (int)t.below(12);
+  std::string bad;
+  if (kind < 2) bad = text.substr(0, at);                                   // truncation
+  else if (kind < 10) bad = text.substr(0, at) + poison[kind] + text.substr(at);
+  else bad = text.substr(0, at) + text.substr(std::min(text.size(), at + 1 + t.below(12)));   // deletion
+  Op f("file");
+  f.S(mps ? "MPS" : "LP").S(bad).I(t.below(2)).I(kind).I((long)at);
+  c.ops.push_back(f);
+}
+static void c18_run_file(const Case &c, Result &r) {
+  if (c.ops.empty() || c.ops[0].k != "file" || c.ops[0].s.size() < 2) { r.verdict = DISCARD; return; }
+  const Op &f = c.ops[0];
+  ReadResult rr;
+  sut_read_text(f.s[1], f.s[0].c_str(), !f.i.empty() && f.i[0], rr);
+  r.label("format:" + f.s[0]);
+  r.label(rr.p ? "reader:accepted" : "reader:rejected");
+  if (rr.p) {
+    // an accepted file is also written once (error paths of the writers) and solved briefly
+    std::string path, why;
+    sut_write_file(rr.p, f.s[0] == "LP" ? "MPS" : "LP", 0, path, &why);
+    int st = 0;
+    mpq_QSset_param(rr.p, QS_PARAM_SIMPLEX_MAX_ITERATIONS, 50);
+    mpq_QSopt_dual(rr.p, &st);
+    mpq_QSfree_prob(rr.p);
+  }
+  QSexactClear();
+  r.nontrivial = !rr.p && rr.lines_consumed >= 2;
+  r.canon = f.s[1];
+  r.sample = f.s[1].substr(0, 800);
+}
+
 static std::string c18_context(const Case &c) {
   for (auto &o : c.ops) if (o.k == "bad" && o.i.size() >= 2) return strprintf("probe=%ld", o.i[0]);
   return "";
@@ -54,6 +98,9 @@ void register_c18() {
   Property b = {"C18", "bad", c18_gen_bad, c18_run_bad, 2, 60, true};
   b.keep_going = true;
   register_property(b);
+  Property f = {"C18", "file", c18_gen_file, c18_run_file, 6, 60, true};
+  f.keep_going = true;
+  register_property(f);
   (void)c18_context;
 }
 
